@@ -86,25 +86,25 @@ PROPS['C02'] = dict(
 )
 PROPS['C03'] = dict(
     modules=['specs.quoting', 'contracts.quoting', 'contracts.regexes'],
-    bounded=['bounded.quoting'],
+    bounded=['bounded.quoting', 'bounded.argv'],
     level='other',
-    design_ref='DESIGN.md §4 C03',
-    technique='deductive (kernel): VCs from the real AST of the quoting layer (ninja_quote, NinjaRule._quoter, gcc_rsp_quote, Backend.escape_extra_args) against the quoting decision table; quote/unquote round trips against models of ninja, sh and gcc response files bounded-exhaustive',
+    design_ref='DESIGN.md §4 C03, §0.6',
+    technique='deductive (kernel): VCs from the real AST of the quoting layer (ninja_quote, NinjaRule._quoter, gcc_rsp_quote, Backend.escape_extra_args) against the quoting decision table; the choice of the response-file quoter at its two sites (region contracts against one table), the live quoting patterns (regex constants); quote/unquote round trips against models of ninja, sh and gcc/cmd response-file readers bounded-exhaustive; custom_target / run_target / test commands of generated projects end to end through the real `meson setup` (stub ninja), read back from build.ninja, the pickled exe wrapper and intro-tests.json',
     level_text='Proved for all strings: a newline is always an error in ninja_quote, otherwise exactly one substitution with the pattern for the position; the four quoting modes of _quoter (shell quoting first, ninja escaping outermost); response-file quoting doubles backslashes then shell-quotes; escape_extra_args keeps count and order and doubles backslashes exactly in -D//D arguments (loop invariant). That the quoted text is read back as the original argument is checked against MODELS of the external consumers, bounded.',
-    level_note='Assumed: re.sub / str.replace / shlex.quote as uninterpreted functions; the consumer models (ninja $-evaluation, POSIX sh via shlex, libiberty buildargv) are models of programs outside /repo. NOT decided: which call sites of the 4000-line backend route every argument through these functions; as_meson_exe_cmdline and substitute_values are not under contract yet.',
+    level_note='Assumed: re.sub / str.replace / shlex.quote as uninterpreted functions; the consumer models (ninja $-evaluation, POSIX sh via shlex, libiberty buildargv) are models of programs outside /repo. NOT decided deductively: which call sites of the 4000-line backend route every argument through these functions (custom_target / run_target / test positions are exercised end to end, bounded; compiler and linker argument positions need a compiler, not available offline); as_meson_exe_cmdline and substitute_values are not under contract.',
     explanation='kernel clauses proved on the quoting functions; round trips against consumer models bounded; call-site coverage of the backend not decided',
-    not_decided=['every argument of every command position is routed through the quoting layer', 'pickled exe wrapper path (as_meson_exe_cmdline, meson_exe.run_exe)', '@TEMPLATE@ substitution (substitute_values)'],
+    not_decided=['compiler / linker argument positions (c_args, link_args: need a compiler)', 'execution of the pickled exe wrapper (meson_exe.run_exe); its pickle is read back, bounded', '@TEMPLATE@ substitution (substitute_values)'],
 )
 PROPS['C04'] = dict(
     modules=['specs.ninja', 'contracts.ninja'],
-    bounded=['bounded.ninja'],
+    bounded=['bounded.ninja', 'bounded.manifest'],
     level='other',
-    design_ref='DESIGN.md §4 C04',
-    technique='deductive (kernel): VCs from the real AST of NinjaBuildElement.check_outputs (loop invariant over a shared set), NinjaBuild.add_build and add_rule; statement sequences through the real classes bounded-exhaustive',
-    level_text='Proved for all output lists and all previously registered sets: check_outputs registers every output path and marks the element erroneous exactly when a path was registered before (by another statement or earlier in the same one); add_build checks EVERY statement, phony or not, and binds a non-phony one to its defined rule; add_rule rejects a second rule of the same name. write() refusing an erroneous element is checked bounded.',
-    level_note='NOT decided: acyclicity, closure of inputs, reachability from all / meson-test-prereq (whole-graph facts of generate_*); forbidden / duplicate target names in Interpreter.add_target; implicit outputs are not registered by the code (contract scoped to explicit outputs).',
-    explanation='kernel: output-collision and rule-binding bookkeeping proved; graph-level clauses not decided',
-    not_decided=['dependency graph acyclic', 'every input exists or is produced', 'default and test targets reachable from all / meson-test-prereq', 'target-name collisions rejected at configure time (Interpreter.add_target)'],
+    design_ref='DESIGN.md §4 C04, §0.6',
+    technique='deductive (kernel): VCs from the real AST of NinjaBuildElement.check_outputs (loop invariant over a shared set), NinjaBuild.add_build, add_rule and the rule-flavour generator of NinjaRule.write; statement sequences and whole manifests through the real classes bounded-exhaustive; generated target-graph projects through the real `meson setup` with the ninja back end (stub ninja) audited by an independent manifest reader',
+    level_text='Proved for all output lists and all previously registered sets: check_outputs registers every output path and marks the element erroneous exactly when a path was registered before (by another statement or earlier in the same one); add_build checks EVERY statement, phony or not, and binds a non-phony one to its defined rule; add_rule rejects a second rule of the same name; a rule is written in its plain flavour iff a statement uses it without a response file and in its _RSP flavour iff one uses it with a response file. The graph-level clauses (every rule used is defined, no path produced twice, acyclic, every input exists or is produced, reachability from all / meson-test-prereq, colliding outputs rejected at configure time) are checked on generated projects through the real meson setup, labelled bounded.',
+    level_note='NOT decided deductively: acyclicity, closure of inputs, reachability (whole-graph facts of generate_*), target-name checks of Interpreter.add_target — bounded only, on projects of custom / run / alias targets and tests (compiled targets need a compiler, which is not available offline); implicit outputs are not registered by the code (contract scoped to explicit outputs).',
+    explanation='kernel: output-collision, rule-binding and rule-flavour bookkeeping proved; graph-level clauses bounded on generated projects',
+    not_decided=['dependency graph acyclic (bounded only)', 'every input exists or is produced (bounded only)', 'default and test targets reachable from all / meson-test-prereq (bounded only)', 'compiled targets (executables, libraries, unity, generators with a compiler)'],
 )
 PROPS['C06'] = dict(
     modules=['specs.quoting', 'contracts.quoting', 'specs.ninja', 'contracts.conffile'],
